@@ -25,15 +25,27 @@
         with the partial bindings made before it) the engine equals the pure, fuel-free `C13N.pmatch`.
   Proved by induction over the pattern tree (Lemmas/C13Nested*.lean).  Not covered (kept out of `Pat` because
   they evaluate expressions in the middle of the binding): computed / interpolated keys and index, range-index
-  and property targets; assignment mode (`=`) of nested patterns (the depth-1 theorems above cover both modes).
+  and property targets (`index_leaves_need_sequential_spec`, below, shows why an index leaf does not fit `proj`: the source
+  is re-read at every item, so `[xs[1], xs[0]] = xs` gives `[1, 1]`).
+
+  ASSIGNMENT mode (`=`) of nested patterns, arbitrary depth, plain-name leaves (third session, Lemmas/C13Assign*.lean):
+      theorem assign_nested : for fuel ≥ p.size, `bindNext … p.toExpr v none false` is ok ↔ `proj p σ v` is defined (shape),
+        the leaf names are pairwise distinct and not yet bound by this pattern, every leaf name is declared somewhere in the
+        chain, and the state is `assignAll`: each leaf stored in its NEAREST binding (`assign_nested_nearest`), names, order
+        and declaration positions of every scope cell kept, every other name of every scope cell — shadowed outer bindings,
+        scopes outside the chain — reads as before (`assign_nested_others`, `assign_nested_frame`), each leaf reads back
+        (`assign_nested_leaves`, `assign_nested_eval`); `assign_nested_exact` / `assign_nested_any_fuel`: on every outcome
+        the engine is the fuel-free `amatch`; `assign_nested_not_ok`: otherwise a reported error, never ok.
 -/
 import SeedProofs.Lemmas.C13Obj
 import SeedProofs.Lemmas.C13Call
 import SeedProofs.Lemmas.C13NestedFuel
+import SeedProofs.Lemmas.C13Assign3
 import SeedModel.Run
 namespace Seed.C13
 open Seed Gen
 
+-- audit: Seed.C13N.assign_nested Seed.C13N.assign_nested_exact Seed.C13N.assign_nested_any_fuel Seed.C13N.assign_nested_succeeds Seed.C13N.assign_nested_sound Seed.C13N.assign_nested_not_ok Seed.C13N.assign_nested_frame Seed.C13N.assign_nested_nearest Seed.C13N.assign_nested_others Seed.C13N.assign_nested_leaves Seed.C13N.assign_nested_eval Seed.C13N.assign_stmt_nested Seed.C13N.aName_dup Seed.C13N.aName_undefined
 -- audit: Seed.C13N.bindNext_pat Seed.C13N.bindList_pat Seed.C13N.bindObject_pat Seed.C13N.pmatch_agree Seed.C13N.proj_ext Seed.C13N.bindNext_pat_any Seed.C13N.FreshBs_iff Seed.C13N.FreshBs.lookup
 
 /-! ## example state -/
